@@ -532,6 +532,17 @@ pub fn eval_session_check(check: &str, case: &Case, replies: &[String]) -> Optio
                 None => Ok(()),
             }
         }
+        // C06: the analysis reports no error on file line `fl` whose statement executes fine on its own (range r)
+        ["no-error-on-line", ai, fl, r] => {
+            let ai: usize = ai.parse().unwrap();
+            let (a, b) = parse_range(r);
+            let runs_fine = !(a..=b.min(case.ops.len() - 1)).any(|k| is_call(&case.ops[k]) && replies[k].starts_with("err "));
+            let rejected = replies[ai].split(" ; M ").nth(1).unwrap_or("").split(' ').find(|m| m.starts_with(&format!("E:{}:", fl))).map(|s| s.to_string());
+            match (runs_fine, rejected) {
+                (true, Some(e)) => Err(format!("analysis rejects file line {} ({}) although that straight-line statement executes fine from a fresh state", fl, e)),
+                _ => Ok(()),
+            }
+        }
         ["no-syntax-error"] => {
             let mut res = Ok(());
             for i in 0..case.ops.len() {
